@@ -70,9 +70,6 @@ Inv == TypeInv /\ Conservation /\ Outstanding /\ ExactlyWhen /\ NothingBefore
 
 Bound == rx <= 30
 
-\* Apalache: the real modulus; call sizes are unbounded there
-CInit == M = 4294967296 /\ MaxN = 0
-
 \* for the inductive step: start anywhere inside Inv
 IndInit == /\ known \in BOOLEAN /\ win \in Int /\ pend \in Int /\ rx \in Int /\ acked \in Int
            /\ emitted \in Int /\ wcall \in Int /\ Inv
